@@ -646,6 +646,19 @@ def rule_field_api(P):
                         r.add(f, nd, ok, "" if ok else f"`{first_line(nd)}` writes the field `{base.attr}` directly: the state set / alphabet "
                               f"bookkeeping of add_I/add_F/add_arc is bypassed (an arc-less initial+final state disappears from `states`, "
                               f"and ε-removal or trimming then drops its weight)", slots=dict(field=base.attr))
+        for nd in walk_live(f.node):
+            if isinstance(nd, ast.Call) and isinstance(nd.func, ast.Attribute) and nd.func.attr in ("update", "clear", "pop", "popitem", "setdefault", "add", "remove", "discard", "copy_from"):
+                base = nd.func.value
+                while isinstance(base, ast.Subscript):
+                    base = base.value
+                if isinstance(base, ast.Attribute) and base.attr in WFSA_FIELDS and not (isinstance(base.value, ast.Name) and base.value.id in ("self",) and q in FIELD_WRITERS):
+                    if q in FIELD_WRITERS:
+                        continue
+                    # reads such as self.start.copy() are not in the list above; A.add / B.add of FST alphabets are other fields
+                    ok = False
+                    r.looked_at(f)
+                    r.add(f, nd, ok, f"`{first_line(nd)}` mutates the field `{base.attr}` directly (outside the construction API): rows/charts are shared or states left unregistered",
+                          slots=dict(field=base.attr))
     r.min_instances = 8
     return r
 
@@ -670,4 +683,84 @@ def rule_sym_union(P):
     r.add(f, lp, ok, "" if ok else f"the symbol loop iterates `{txt}`: symbols used only by the other automaton are never explored, so two "
           f"automata that differ only on strings containing such a symbol are reported equivalent (and == becomes asymmetric)", slots=dict(iterates=txt))
     r.min_instances = 1
+    return r
+
+
+# ---------------------------------------------------------------- GEN-ONESHOT
+
+
+def _generator_members(P):
+    """names of methods/properties that are generator functions (contain `yield`), per class name"""
+    gens = set()
+    for f in P.funcs.values():
+        if f.cls is not None and f.outer is None and any(isinstance(n, (ast.Yield, ast.YieldFrom)) for n in walk_live(f.node)):
+            gens.add((f.name, f.is_property))
+    return gens
+
+
+def rule_oneshot(P, scope=None):
+    r = RuleResult("GEN-ONESHOT", "a value that can be iterated only once (the generator properties I / F, calls of generator methods such "
+                   "as arcs(), generator expressions, zip/map/filter objects) is not bound to a name and then iterated inside a loop that "
+                   "does not re-create it: the second pass of the outer loop finds it exhausted (only the first initial state / arc is "
+                   "combined)", "one-shot iterators are not re-used across loop iterations")
+    gens = _generator_members(P)
+    gprops = {n for n, isprop in gens if isprop}
+    gmeths = {n for n, isprop in gens if not isprop}
+    n_sites = 0
+    for q in sorted(P.funcs):
+        f = P.funcs[q]
+        if scope is not None and not any(q.startswith(s) for s in scope):
+            continue
+        if classify(f) == "display":
+            continue
+        cands = []
+        for nd0 in walk_live(f.node):
+            if isinstance(nd0, ast.Assign):
+                for t in nd0.targets:
+                    for x in ([t] if isinstance(t, ast.Name) else (t.elts if isinstance(t, (ast.Tuple, ast.List)) else [])):
+                        if isinstance(x, ast.Name):
+                            asg = W_.assignments_to(f.node, x.id)
+                            if len(asg) == 1 and asg[0][1] is not None and asg[0][0] is nd0:
+                                cands.append((nd0, x.id, asg[0][1]))
+        for nd, name, v in cands:
+            kind = None
+            if isinstance(v, ast.Attribute) and v.attr in gprops and v.attr in ("I", "F"):
+                kind = f"generator property .{v.attr}"
+            elif isinstance(v, ast.Call) and isinstance(v.func, ast.Attribute) and v.func.attr in gmeths and v.func.attr in ("arcs", "derivations", "_derivations_list", "_find_invalid_cnf_rule"):
+                kind = f"generator method .{v.func.attr}()"
+            elif isinstance(v, ast.GeneratorExp):
+                kind = "generator expression"
+            elif isinstance(v, ast.Call) and isinstance(v.func, ast.Name) and v.func.id in ("zip", "map", "filter", "iter", "reversed", "enumerate"):
+                kind = f"{v.func.id}(...) iterator"
+            if kind is None:
+                continue
+            n_sites += 1
+            r.looked_at(f)
+            # uses as an iterable
+            bad = None
+            uses = 0
+            for u in walk_live(f.node):
+                it = None
+                if isinstance(u, (ast.For, ast.AsyncFor)) and W_.is_name(u.iter, name):
+                    it = u
+                elif isinstance(u, ast.comprehension) and W_.is_name(u.iter, name):
+                    it = u
+                if it is None:
+                    continue
+                uses += 1
+                outer_loops = [a for a in ancestors(it) if isinstance(a, (ast.For, ast.While, ast.AsyncFor, ast.comprehension)) and not W_._within(nd, a)]
+                # a comprehension generator that is not the first one is itself re-run for every outer element
+                if isinstance(it, ast.comprehension):
+                    comp = parent(it)
+                    if comp is not None and comp.generators.index(it) > 0:
+                        outer_loops.append(comp)
+                if outer_loops:
+                    bad = it
+            if uses > 1 and bad is None:
+                bad = nd
+            r.add(f, nd, bad is None, "" if bad is None else
+                  f"`{name}` holds a {kind}; it is iterated again for every element of an enclosing loop (line {getattr(bad, 'lineno', nd.lineno)}) "
+                  f"but is exhausted after the first pass: only the first outer element is combined with its items",
+                  slots=dict(kind=kind, name=name))
+    r.note(f"{n_sites} one-shot iterators bound to names")
     return r
